@@ -12,6 +12,7 @@ import BV.Model.Code128
 import BV.OpsMisc
 import BV.OpsDatamatrix
 import BV.OpsPdf417
+import BV.OpsStage
 import BV.Model.Qr
 import BV.Spec.Qr
 import BV.Model.Aztec
@@ -143,7 +144,7 @@ def miscOp (f : List String) : Option String :=
     let w ← natField w
     let h ← natField h
     pure (Spec.Qr.decodeDigits w h px)
-  | _ => (OpsMisc.miscOp f <|> OpsDatamatrix.miscOp f <|> OpsPdf417.miscOp f)
+  | _ => (OpsMisc.miscOp f <|> OpsDatamatrix.miscOp f <|> OpsPdf417.miscOp f <|> OpsStage.stageOp f)
 
 def execOp (line : String) : String :=
   let f := (line.splitOn " ").filter (· ≠ "")
